@@ -46,6 +46,9 @@ Definition is_nanb (a : F) : bool := BinarySingleNaN.is_nan a.
    (compared modulo zero sign by the correspondence driver). *)
 Definition fmax (a b : F) : F :=
   if is_nanb a then b else if is_nanb b then a else if flt a b then b else a.
+(* f64::min, symmetric to max *)
+Definition fmin (a b : F) : F :=
+  if is_nanb a then b else if is_nanb b then a else if flt b a then b else a.
 (* f64::is_normal: finite, non-zero, not subnormal *)
 Definition is_normalb (a : F) : bool :=
   match a with
